@@ -17,8 +17,8 @@ OC = sys.modules["adcgen.generate_code.optimize_contractions"]
 import c16_util as U
 
 LEVEL = "proof"
-RULE = ("fixed corpus (repo test inputs, the known failing input, mutation-"
-        "sensitive inputs) + seeded random index patterns: 1-6 objects of "
+RULE = ("fixed corpus (repo test inputs, the formerly failing inputs and their "
+        "10 canonical cores, mutation-sensitive inputs) + seeded random index patterns: 1-6 objects of "
         "rank 0-4 over occ/virt/general indices with and without spin, "
         "styles chain / random / hyper-index on 3-4 objects / traces / outer "
         "products / disconnected groups / repeated objects (exponents) / "
@@ -246,11 +246,12 @@ def coq_case(c):
     kind, val = c.opt_lit
     if kind == "scheme":
         po = f"(OScheme {L.scheme(val)} {c.cnt_opt_after}%N)"
-    elif kind == "bare":
-        po = f"(OBare {L.step(val)})"
     else:
-        po = {"empty": "OEmpty", "typeerror": "OTypeError",
-              "assert": "OAssert", "runtime": "ONoScheme"}.get(kind, "OEmpty")
+        # "bare" / "typeerror" (the repaired single-object defect) have no
+        # counterpart in the model any more: any value that differs from the
+        # model's OScheme makes the comparison fail
+        po = {"empty": "OEmpty", "assert": "OAssert",
+              "runtime": "ONoScheme"}.get(kind, "OAssert")
     un = L.scheme(c.un) if c.un is not None else "[]"
     body = (f"check_case {objs} {tg} {U.opt(c.mid)} {U.opt(c.mg)} {groups} "
             f"{c.cnt_enum}%N {c.cnt_opt}%N {po} {c.cnt_un}%N {un}")
@@ -496,8 +497,9 @@ def corpus():
                          T("D", "ik")], "")
     add("group-test:isolated", [T("A", "pqps"), T("B", "ip"), T("C", "jp"),
                                 T("D", "kr"), T("F", "ls")], "ijl")
-    # canonical cores of the inputs on which the selected scheme is known to
-    # be wrong (known_findings.d/C16.json); they must keep reproducing
+    # canonical cores of the inputs on which the selected scheme was wrong
+    # before the fix (leak guard in _optimize_contractions): regression corpus,
+    # the violation is reported again if the defect returns
     for core in KNOWN_CORES:
         pat, _, lim = core.partition(";")
         lhs, tgt = pat.split("->")
@@ -844,6 +846,18 @@ def run(ctx):
                 stats["inconsistent_not_wf"] = \
                     stats.get("inconsistent_not_wf", 0) + 1
             continue
+        # every enumerated scheme is well-formed (theorem
+        # C16_enumerate_schemes_wf for the model; here on the implementation)
+        bad = [k for k, x in enumerate(r["enum_wf"]) if not x]
+        stats["enumerated_not_wf_consistent"] = \
+            stats.get("enumerated_not_wf_consistent", 0) + len(bad)
+        if not ctx.obligation(f"all enumerated schemes wf: {d['label']}",
+                              not bad):
+            violation("C16:enumerated-scheme-not-wf:" + d["pattern"],
+                      "_optimize_contractions yields a scheme rejected by "
+                      "wf_scheme", {"case": d, "scheme": scheme_text(
+                          c.enum[bad[0]]) if c.enum else None,
+                          "n_bad": len(bad)}, True)
         # --- the property itself on the returned schemes -------------------
         kind = c.opt_lit[0]
         if kind in ("typeerror", "bare"):
